@@ -198,7 +198,27 @@ func checkCase(c Case) error {
 					scout.Terminate()
 					return vt.Violationf("C19:setup", "scout proxy of %s: %v", name, err)
 				}
-				refs[name] = bus.ObjectReference(px)
+				ref := bus.ObjectReference(px)
+				if (k+j)%2 == 0 {
+					// a reference which describes the interface only, not the
+					// generic actions every object has (ids below 100)
+					mo := ref.MetaObject
+					methods := map[uint32]object.MetaMethod{}
+					for id, m := range mo.Methods {
+						if id >= 100 {
+							methods[id] = m
+						}
+					}
+					signals := map[uint32]object.MetaSignal{}
+					for id, sg := range mo.Signals {
+						if id >= 100 {
+							signals[id] = sg
+						}
+					}
+					mo.Methods, mo.Signals, mo.Properties = methods, signals, map[uint32]object.MetaProperty{}
+					ref.MetaObject = mo
+				}
+				refs[name] = ref
 			}
 		}
 		scout.Terminate()
